@@ -37,6 +37,23 @@ func runC45(c *Ctx) {
 		seen[s.key] = true
 		why, ok := table[s.key]
 		if !ok {
+			// the same panic moved into an unexported helper whose every static
+			// caller is the function it is tabled for (a helper extracted from it)
+			if g := s.fn; g.Object() != nil && !g.Object().Exported() {
+				cs := c.callersOf(g)
+				all := len(cs) > 0
+				for _, ci := range cs {
+					rel := strings.TrimPrefix(strings.TrimPrefix(ci.Parent().Pkg.Pkg.Path(), modPath), "/")
+					if w2, ok2 := table[rel+"."+fnName(ci.Parent())+": "+s.text]; ok2 {
+						why = w2 + " (the panic now sits in the helper " + fnName(g) + ", called only from there)"
+					} else {
+						all = false
+					}
+				}
+				ok = all
+			}
+		}
+		if !ok {
 			c.fail("C45.panic-site", s.key, s.p, "explicit panic reachable from a parser entry point and not in the checker's table")
 			continue
 		}
